@@ -96,19 +96,33 @@ def _format_case(loc):
                 out.append(("before_marker_relative_to_other", And(Not(absolute), Not(is_now), Not(fut))))
             else:
                 out.append(("no_marker_only_when_absolute", absolute))
-            # the count shown is the largest non-zero unit's component or one more, at least 1
-            if fargs and sym.is_intlike(fargs[0]):
-                cnt = fargs[0]
+            # the count AND the unit shown are the documented rounding of the largest non-zero unit: that unit's component or one
+            # more (never more than one unit away from the true elapsed time), at least 1.  Relative to another value the phrase
+            # is custom.before/after applied to an inner "<count> <unit>" phrase: the clause is stated on that inner phrase.
+            import re as _re
+
+            inner_t, inner_a = tmpl, fargs
+            if fargs and isinstance(fargs[0], Formatted):
+                inner_t, inner_a = fargs[0].template, fargs[0].args
+            ukey = getattr(inner_t, "key", None)
+            m_ = _re.search(r"(?:^|\.)(year|month|week|day|hour|minute|second)(?:\.|$)", ukey) if isinstance(ukey, str) else None
+            unit = m_.group(1) if m_ else None
+            if inner_a and sym.is_intlike(inner_a[0]):
+                cnt = inner_a[0]
                 comps = unit_and_count(diff)
                 ok = []
-                seen_zero = True
                 for i, (name, c) in enumerate(comps):
+                    if unit is not None and name != unit:
+                        continue
                     earlier_zero = And(*[eq(cc, 0) for _, cc in comps[:i]]) if i else True
                     ok.append(And(earlier_zero, gt(c, 0), Or(eq(cnt, c), eq(cnt, sym.add(c, 1)))))
                 # (eleven months and more than 15 days is shown as "1 year")
-                ok.append(And(eq(comps[0][1], 0), eq(comps[1][1], 11), eq(cnt, 1)))
-                ok.append(And(*[eq(c, 0) for _, c in comps[:-1]], Or(eq(cnt, comps[-1][1]), eq(cnt, 1))))
-                out.append(("count_is_the_documented_rounding_of_the_largest_unit", And(ge(cnt, 1), Or(*ok))))
+                if unit in (None, "year"):
+                    ok.append(And(eq(comps[0][1], 0), eq(comps[1][1], 11), eq(cnt, 1)))
+                if unit in (None, "second"):
+                    ok.append(And(*[eq(c, 0) for _, c in comps[:-1]], Or(eq(cnt, comps[-1][1]), eq(cnt, 1))))
+                label = "count_and_unit_are_the_documented_rounding_of_the_largest_unit" if unit is not None else "count_is_the_documented_rounding_of_the_largest_unit"
+                out.append((label, And(ge(cnt, 1), Or(*ok)) if ok else False))
             return out
 
     return case
